@@ -37,17 +37,71 @@ Proof.
   split; intros [d [H1 H2]]; exists d; split; auto; apply issubclass_iff; auto.
 Qed.
 
-(* count_exceptions() without argument: exactly the classes below Exception *)
-Lemma default_matches k : isinstance_any k default_exceptions = true <-> Ancestor k C_Exception.
+(* ---- exception specs: induction through the nested lists ---- *)
+Fixpoint espec_ind' (P : espec -> Prop) (Hc : forall d, P (EClass d))
+                    (Ht : forall l, Forall P l -> P (ETuple l)) (e : espec) : P e :=
+  match e with
+  | EClass d => Hc d
+  | ETuple l =>
+      Ht l ((fix go (l : list espec) : Forall P l :=
+               match l with
+               | [] => Forall_nil P
+               | x :: r => Forall_cons x (espec_ind' P Hc Ht x) (go r)
+               end) l)
+  end.
+
+(* isinstance(value, spec) is `except spec` *)
+Lemma isinstance_spec_iff k e : isinstance_spec k e = true <-> Matches k e.
 Proof.
-  rewrite isinstance_any_iff. unfold default_exceptions. split.
-  - intros [d [[<-|[]] H]]. exact H.
-  - intro H. exists C_Exception. split; [left; reflexivity|exact H].
+  induction e as [d|l IH] using espec_ind'.
+  - simpl. rewrite issubclass_iff. split; [apply m_class|]. intro H. inversion H; subst. assumption.
+  - cbn [isinstance_spec]. rewrite existsb_exists. rewrite Forall_forall in IH. split.
+    + intros (x & Hin & Hx). apply (m_tuple k l x Hin). apply IH; assumption.
+    + intro H. inversion H as [|l' x Hin Hx]; subst. exists x. split; [assumption|]. apply IH; assumption.
 Qed.
+
+Lemma existsb_flat_map {A B} (f : B -> bool) (g : A -> list B) l :
+  existsb f (flat_map g l) = existsb (fun a => existsb f (g a)) l.
+Proof. induction l as [|a l IH]; simpl; [reflexivity|]. rewrite existsb_app, IH. reflexivity. Qed.
+
+(* nesting, order and repetition do not matter: only the set of classes named *)
+Lemma isinstance_spec_flat k e : isinstance_spec k e = isinstance_any k (spec_classes e).
+Proof.
+  unfold isinstance_any. induction e as [d|l IH] using espec_ind'.
+  - simpl. rewrite orb_false_r. reflexivity.
+  - cbn [isinstance_spec spec_classes]. rewrite existsb_flat_map.
+    induction IH as [|x r Hx _ IHr]; simpl; [reflexivity|]. rewrite Hx, IHr. reflexivity.
+Qed.
+
+Lemma isinstance_spec_classes k e :
+  isinstance_spec k e = true <-> exists d, In d (spec_classes e) /\ Ancestor k d.
+Proof. rewrite isinstance_spec_flat. apply isinstance_any_iff. Qed.
+
+Lemma spec_same_classes k e e' :
+  (forall d, In d (spec_classes e) <-> In d (spec_classes e')) -> isinstance_spec k e = isinstance_spec k e'.
+Proof.
+  intro H. apply Bool.eq_iff_eq_true. rewrite !isinstance_spec_classes.
+  split; intros (d & Hin & Ha); exists d; (split; [apply H; assumption|assumption]).
+Qed.
+
+(* a tuple that names no class - the empty tuple, or tuples of empty tuples - matches nothing *)
+Lemma spec_no_class k e : spec_classes e = [] -> isinstance_spec k e = false.
+Proof. intro H. rewrite isinstance_spec_flat, H. reflexivity. Qed.
+
+Lemma empty_tuple_matches_nothing k : isinstance_spec k (ETuple []) = false.
+Proof. reflexivity. Qed.
+
+(* a class and the one-element tuple of it, and a tuple and itself nested once more, are the same configuration *)
+Lemma spec_singleton k e : isinstance_spec k (ETuple [e]) = isinstance_spec k e.
+Proof. cbn [isinstance_spec existsb]. apply orb_false_r. Qed.
+
+(* count_exceptions() without argument: exactly the classes below Exception *)
+Lemma default_matches k : isinstance_spec k default_exceptions = true <-> Ancestor k C_Exception.
+Proof. unfold default_exceptions. simpl. apply issubclass_iff. Qed.
 
 Lemma default_excludes :
   forall k, In k [C_BaseException; C_KeyboardInterrupt; C_SystemExit; C_GeneratorExit; C_UserBase; C_UserExit] ->
-  isinstance_any k default_exceptions = false.
+  isinstance_spec k default_exceptions = false.
 Proof. intros k H. simpl in H. repeat (destruct H as [<-|H]; [reflexivity|]). destruct H. Qed.
 
 (* ====================================================================================================== *)
@@ -157,7 +211,7 @@ Lemma gau_exit m o s g :
   end.
 Proof.
   destruct m as [c excs|g'|t tg]; simpl.
-  - destruct o as [v|k ob]; [reflexivity|]. destruct (isinstance_any k excs); reflexivity.
+  - destruct o as [v|k ob]; [reflexivity|]. destruct (isinstance_spec k excs); reflexivity.
   - unfold upd. destruct (N.eqb g g') eqn:E; [apply N.eqb_eq in E; subst; reflexivity|reflexivity].
   - pose proof (tick_fields s) as T. destruct (tick s) as [r s1]. simpl in *. destruct T as (_ & T & _).
     destruct tg as [m'|g']; simpl; [rewrite T; reflexivity|].
@@ -204,7 +258,7 @@ Lemma olog_exit m o s :
   end.
 Proof.
   destruct m as [c excs|g'|t tg]; simpl.
-  - destruct o as [v|k ob]; [reflexivity|]. destruct (isinstance_any k excs); reflexivity.
+  - destruct o as [v|k ob]; [reflexivity|]. destruct (isinstance_spec k excs); reflexivity.
   - reflexivity.
   - unfold exit_duration. pose proof (tick_fields s) as T. destruct (tick s) as [r s1]. simpl in *.
     destruct T as (_ & _ & T & _). destruct tg; simpl; rewrite T; reflexivity.
@@ -275,7 +329,7 @@ Qed.
 Lemma fresh_exit m o s : next_t (snd (cm_exit m o s)) = next_t s /\ t_fresh (snd (cm_exit m o s)) = t_fresh s.
 Proof.
   destruct m as [c excs|g'|t tg]; simpl.
-  - destruct o as [v|k ob]; [split; reflexivity|]. destruct (isinstance_any k excs); split; reflexivity.
+  - destruct o as [v|k ob]; [split; reflexivity|]. destruct (isinstance_spec k excs); split; reflexivity.
   - split; reflexivity.
   - pose proof (tick_fields s) as T. destruct (tick s) as [r s1]. simpl in *.
     destruct T as (_ & _ & _ & _ & T5 & T6 & _). destruct tg; simpl; rewrite T5, T6; split; reflexivity.
@@ -333,12 +387,12 @@ Qed.
 Lemma cnt_exit m o s c :
   cnt (snd (cm_exit m o s)) c =
   cnt s c + match m, o with
-            | CmCount c' excs, Exn k _ => if N.eqb c c' && isinstance_any k excs then 1 else 0
+            | CmCount c' excs, Exn k _ => if N.eqb c c' && isinstance_spec k excs then 1 else 0
             | _, _ => 0
             end.
 Proof.
   destruct m as [c' excs|g'|t tg]; simpl.
-  - destruct o as [v|k ob]; [lia|]. destruct (isinstance_any k excs); simpl.
+  - destruct o as [v|k ob]; [lia|]. destruct (isinstance_spec k excs); simpl.
     + unfold upd. destruct (N.eqb c c') eqn:E; simpl; [apply N.eqb_eq in E; subst; reflexivity|lia].
     + rewrite andb_false_r. lia.
   - lia.
@@ -371,13 +425,39 @@ Proof. intro c'. rewrite !counts. simpl counted. lia. Qed.
 
 Lemma escapes_matching_iff b excs :
   escapes_matching b excs = true <->
-  exists k o d, result b = Exn k o /\ In d excs /\ Ancestor k d.
+  exists k o d, result b = Exn k o /\ In d (spec_classes excs) /\ Ancestor k d.
 Proof.
   unfold escapes_matching. destruct (result b) as [v|k o].
   - split; [discriminate|]. intros (k & o & d & H & _). discriminate.
-  - rewrite isinstance_any_iff. split.
+  - rewrite isinstance_spec_classes. split.
     + intros (d & H1 & H2). exists k, o, d. auto.
     + intros (k' & o' & d & H & H1 & H2). inversion H; subst. exists d. auto.
+Qed.
+
+Lemma escapes_matching_except b excs :
+  escapes_matching b excs = true <-> exists k o, result b = Exn k o /\ Matches k excs.
+Proof.
+  unfold escapes_matching. destruct (result b) as [v|k o].
+  - split; [discriminate|]. intros (k & o & H & _). discriminate.
+  - rewrite isinstance_spec_iff. split.
+    + intro H. exists k, o. auto.
+    + intros (k' & o' & H & H1). inversion H; subst. assumption.
+Qed.
+
+(* the factory: the configuration that was given is the configuration that is used *)
+Lemma counts_configured c arg b s :
+  forall c', cnt (snd (eval (Call (count_exceptions c arg) b) s)) c' =
+             cnt (snd (eval b s)) c' +
+             (if N.eqb c' c && escapes_matching b (match arg with Some e => e | None => EClass C_Exception end)
+              then 1 else 0).
+Proof. intro c'. unfold count_exceptions, default_exceptions. apply counts_call. Qed.
+
+(* nothing configured, nothing counted: whatever the body does *)
+Lemma counts_nothing_configured c e b s :
+  spec_classes e = [] -> forall c', cnt (snd (eval (Call (count_exceptions c (Some e)) b) s)) c' = cnt (snd (eval b s)) c'.
+Proof.
+  intros H c'. rewrite counts_configured. unfold escapes_matching.
+  destruct (result b) as [v|k o]; [rewrite andb_false_r; lia|]. rewrite (spec_no_class k e H), andb_false_r. lia.
 Qed.
 
 (* ---- what the body sees while it runs ---- *)
@@ -391,7 +471,7 @@ Qed.
 Lemma plog_exit m o s : plog (snd (cm_exit m o s)) = plog s.
 Proof.
   destruct m as [c excs|g'|t tg]; simpl.
-  - destruct o as [v|k ob]; [reflexivity|]. destruct (isinstance_any k excs); reflexivity.
+  - destruct o as [v|k ob]; [reflexivity|]. destruct (isinstance_spec k excs); reflexivity.
   - reflexivity.
   - pose proof (tick_fields s) as T. destruct (tick s) as [r s1]. simpl in *. destruct T as (_ & _ & _ & T & _).
     destruct tg; simpl; exact T.
